@@ -3,7 +3,7 @@ from .. import core
 from . import _ecell_prop as E
 
 PID = 'C04'
-PROFILE_C04 = {'affinity': 0.9, 'pressure': 0.8, 'failure': 0.3, 'identity': 0.1}
+PROFILE_C04 = {'affinity': 0.9, 'pressure': 0.8, 'failure': 0.3, 'identity': 0.1, 'move': 0.1}
 RULE_C04 = 'C04 profile: affinity limits on random subsets of levels (server, rack, pod, cell) under capacity pressure so that evictions and restores happen'
 
 
